@@ -493,8 +493,20 @@ class FuncTyper:
     sink_calls = None
 
 
-def full_range_loop(lp, bounds):
-    """for (i = 0; i < N; ++i) or for (auto i = N; i--; ) with render(N) in bounds -> (declId, 'up'/'down') else None"""
+def full_range_loop(lp, bounds, f=None):
+    """for (i = 0; i < N; ++i) or for (auto i = N; i--; ) with render(N) in bounds -> (declId, 'up'/'down') else None;
+    with the function given, any spelling cfg.loop_shape recognises (while loops, hoisted bounds)"""
+    if f is not None:
+        from ..cfg import loop_shape, xrender
+        sh = loop_shape(f, lp)
+        if sh is not None and sh["stepped"] and sh["bound"] is not None:
+            sc = lambda t: t.replace(" ", "").replace("(int)", "").replace("(size_t)", "")
+            b = sc(xrender(f, sh["bound"], True))
+            b0 = sc(render(sh["bound"]))
+            if sh["dir"] == "up" and sh["rel"] in ("<", "!=") and sh["start"] is not None and cv(sh["start"]) == 0 and (b in bounds or b0 in bounds):
+                return sh["var"], "up"
+            if sh["dir"] == "down" and (b in bounds or b0 in bounds):
+                return sh["var"], "down"
     ks = lp.get("c", [])
     if lp["k"] != "ForStmt" or ks[0] is None or ks[0]["k"] != "DeclStmt":
         return None
@@ -569,13 +581,44 @@ def run(rep, ctx):
         if len(sinks) != 1:
             raise AnalysisBroken("C08: %d `%s` sinks in %s" % (len(sinks), sinkname, f.qn))
         lp = f.enclosing(sinks[0], ("ForStmt", "WhileStmt", "DoStmt", "CXXForRangeStmt"))
-        if lp is None or lp["k"] != "ForStmt":
+        if lp is None or lp["k"] not in ("ForStmt", "WhileStmt"):
             return None, None, sinks[0], "the sink is not inside a counting loop"
         ks = lp.get("c", [])
-        v = kids(ks[0])[0] if ks[0] is not None and ks[0]["k"] == "DeclStmt" else None
-        if v is None or cv(kids(v)[0]) != 0 or ks[3] is None or render(ks[3]) not in ("++" + v["name"], v["name"] + "++"):
+        body = [x for x in ks if x is not None][-1]
+        v = None
+        if lp["k"] == "ForStmt" and ks[0] is not None and ks[0]["k"] == "DeclStmt":
+            v = kids(ks[0])[0]
+            if v is None or cv(kids(v)[0]) != 0 or ks[3] is None or render(ks[3]) not in ("++" + v["name"], v["name"] + "++"):
+                v = None
+        if v is None:
+            # a counter kept beside the loop: set to 0 right before it and incremented once, unconditionally, per iteration
+            tops = [x for x in (kids(body) if body["k"] == "CompoundStmt" else [body]) if x is not None]
+            if lp["k"] == "ForStmt" and ks[3] is not None:
+                tops = tops + [ks[3]]
+            for st_ in tops:
+                u = strip(st_)
+                if u["k"] == "UnaryOperator" and u.get("op") == "++" and strip(kids(u)[0])["k"] == "DeclRefExpr":
+                    vid = strip(kids(u)[0]).get("declId")
+                    par = f.parent.get(lp["i"])
+                    sibs = [x for x in (kids(par) if par is not None else []) if x is not None]
+                    idx = next((k_ for k_, x in enumerate(sibs) if x["i"] == lp["i"]), 0)
+                    init0 = None
+                    cands = ([ks[0]] if lp["k"] == "ForStmt" and ks[0] is not None else []) + list(reversed(sibs[:idx]))
+                    for prev in cands:
+                        hit = [n for n in walk(prev) if (n["k"] == "VarDecl" and n.get("declId") == vid and kids(n)) or
+                               (n["k"] == "BinaryOperator" and n.get("op") == "=" and strip(kids(n)[0]).get("declId") == vid)]
+                        if hit:
+                            h0 = hit[-1]
+                            init0 = cv(kids(h0)[0] if h0["k"] == "VarDecl" else kids(h0)[1])
+                            break
+                        if any(n["k"] == "DeclRefExpr" and n.get("declId") == vid for n in walk(prev)):
+                            break
+                    if init0 == 0:
+                        vd = [n for n in f.walk() if n["k"] == "VarDecl" and n.get("declId") == vid]
+                        v = dict(name=strip(kids(u)[0]).get("name"), declId=vid, _inc=u["i"], **({} if not vd else {}))
+                        break
+        if v is None:
             return lp, None, sinks[0], "the loop counter does not run 0,1,2,..."
-        body = ks[-1]
         inner = {n["i"] for n in walk(body)}
         conds = [c for c in f.cfg.facts_at(sinks[0]) if c[0] in inner]
         nested = [a for a in f.ancestors(sinks[0]) if a["k"] in ("ForStmt", "WhileStmt", "DoStmt", "CXXForRangeStmt") and a["i"] in inner]
@@ -583,7 +626,7 @@ def run(rep, ctx):
             return lp, None, sinks[0], "the sink is conditional or nested inside the loop body: iteration k is not position k"
         # the counter is modified only by the increment
         for n in walk(body):
-            if n["k"] in ("UnaryOperator",) and n.get("op") in ("++", "--") and strip(kids(n)[0]).get("declId") == v["declId"]:
+            if n["k"] in ("UnaryOperator",) and n.get("op") in ("++", "--") and strip(kids(n)[0]).get("declId") == v["declId"] and n["i"] != v.get("_inc"):
                 return lp, None, sinks[0], "the counter is modified inside the body"
             if n["k"] in ("BinaryOperator", "CompoundAssignOperator") and n.get("op", "").endswith("=") and \
                     n.get("op") not in ("==", "!=", "<=", ">=") and strip(kids(n)[0]).get("declId") == v["declId"]:
@@ -679,11 +722,11 @@ def run(rep, ctx):
     t1.check(a == ["var_perm_.begin()", "var_perm_.end()"], "sort-full-range", short_loc(sc.get("l")),
              "the whole of var_perm_ is sorted with the default (key, caller index) order",
              "sort arguments %s: a partial range or a custom comparison does not define positions" % a)
-    pre = [s for s in top[:si] if s["k"] == "ForStmt"]
-    post = [s for s in top[si + 1:] if s["k"] == "ForStmt"]
+    pre = [s for s in top[:si] if s["k"] in ("ForStmt", "WhileStmt")]
+    post = [s for s in top[si + 1:] if s["k"] in ("ForStmt", "WhileStmt")]
     t1.check(len(pre) == 1 and len(post) == 1, "phases", short_loc(pv.loc), "one initialisation loop before and one inverse loop after the sort")
     if len(pre) == 1:
-        fr = full_range_loop(pre[0], NVARS)
+        fr = full_range_loop(pre[0], NVARS, pv)
         body = pre[0]["c"][-1]
         first = kids(body)[0] if body["k"] == "CompoundStmt" else body
         e = strip(first)
@@ -700,7 +743,7 @@ def run(rep, ctx):
                strip(kids(n)[0])["k"] == "MemberExpr" and strip(kids(n)[0]).get("name") == "second"]
         t1.check(not wr2, "second-untouched", short_loc(pv.loc), "the caller index stored in .second is never modified")
     if len(post) == 1:
-        fr = full_range_loop(post[0], NVARS)
+        fr = full_range_loop(post[0], NVARS, pv)
         body = post[0]["c"][-1]
         st = strip(kids(body)[0] if body["k"] == "CompoundStmt" else body)
         i = post[0]["c"][0]["c"][0]["name"]
@@ -909,7 +952,7 @@ def run(rep, ctx):
         g1.check(not bad, "class-cases", short_loc(lp.get("l")), "%d (nonlinear, type array, type, bounds) cases: one counter per class, keys in NL class order" % cases,
                  "; ".join(bad[:3]))
         rep.extra["g1_cases"] = cases
-        fr = full_range_loop(lp, NVARS)
+        fr = full_range_loop(lp, NVARS, pv)
         g1.check(fr is not None, "once-per-variable", short_loc(lp.get("l")), "the class loop visits every variable exactly once")
 
     # ---- S1 ---------------------------------------------------------------------------
